@@ -7,7 +7,9 @@ Mode B: TLC enumerates every class sequence up to a bound (+ seeded simulation o
         be exactly the decoded point of the specification, or the line must be rejected with 4xx and store
         nothing. Batches mix valid and invalid lines.
 Divergences are attributed to an open finding of known_findings.json only if the real result equals the
-prediction of the finding's deviation model (the as-implemented automata of the spec + the arithmetic below)."""
+prediction of the finding's deviation model (the as-implemented automata of the spec + the arithmetic below).
+The deviation models of REPAIRED defects (FIXED_OF) are still evaluated, on top of the as-implemented automaton:
+a divergence that equals one of them (and no as-implemented prediction) is a VIOLATION naming the lost fix."""
 import concurrent.futures as cf
 import json, math, os, random, re, struct, sys, threading, time
 import vlib, vserver
@@ -18,13 +20,18 @@ ONE = {"C": ",", "S": " ", "E": "=", "Q": '"', "B": "\\"}
 MULT = {"": 1, "ns": 1, "n": 1, "u": 10**3, "us": 10**3, "ms": 10**6, "s": 10**9, "m": 60 * 10**9, "h": 3600 * 10**9}
 WEEK = 7 * 86400 * 10**9
 I64MAX, I64MIN = 2**63 - 1, -2**63
-FINDING_OF = {  # deviation name of the spec -> finding id
-    "int_via_float64": "F-C06-1", "float_fastfloat": "F-C06-2", "ts_mult_wraps": "F-C06-3",
-    "fsuffix_unvalidated": "F-C06-4", "quote_scan": "F-C06-8", "batch_last_line_decides": "F-C06-6",
-    "empty_tag_skipped": "F-C06-7", "tagval_equals_literal": "F-C06-7",
+FINDING_OF = {  # as-implemented deviation of the spec (constant ImplDev of the cfg files) -> OPEN finding id
+    "int_via_float64": "F-C06-1", "batch_last_line_decides": "F-C06-6",
+    "empty_tag_skipped": "F-C06-7", "tagval_equals_literal": "F-C06-7", "quote_scan_key": "F-C06-8",
 }
-IMPL_DEVS = ["empty_tag_skipped", "tagval_equals_literal", "fsuffix_unvalidated", "quote_scan", "int_via_float64",
-             "float_fastfloat", "ts_mult_wraps"]
+FIXED_OF = {    # deviation model of a repaired defect (constant FixedDev of the cfg files) -> (finding id, fix commit)
+    "float_fastfloat": ("F-C06-2", "c8aa879"), "ts_mult_wraps": ("F-C06-3", "11669c8"),
+    "fsuffix_unvalidated": ("F-C06-4", "10608b5"), "quote_scan": ("F-C06-5", "3a54b7c"),
+}
+# prediction automata exported by TLC: {x} for x in IMPL_DEVS, IMPL_DEVS itself (the code as it is), and
+# IMPL_DEVS + {y} for y in FIXED_OF (the code as it would be again without the fix of y).
+# batch_last_line_decides is the batch-level member of the as-implemented set (judge_batch, BatchStatus of the spec)
+IMPL_DEVS = ["empty_tag_skipped", "tagval_equals_literal", "quote_scan_key", "int_via_float64"]
 
 # ------------------------------------------------------------------------------------------------
 # deviation-model arithmetic
@@ -675,16 +682,30 @@ def judge(cc, obs, open_ids):
         if ok2:
             return "ok", [], "rejected (quote in field key)"
     base = okey(cc["exp"])
-    imps = sorted((x for x in cc["imp"] if okey(x["out"]) != base), key=lambda x: len(x["dev"]))
+    for x in cc["imp"]:
+        unknown = [dv for dv in x["dev"] if dv not in FINDING_OF and dv not in FIXED_OF]
+        if unknown:
+            raise vlib.Infra("prediction automaton with unknown deviation %r" % (unknown,))
+    # as-implemented automata first (single deviations, then all of them), the regression automata after them:
+    # an observation that equals an as-implemented prediction is explained by the open findings alone
+    imps = sorted((x for x in cc["imp"] if okey(x["out"]) != base),
+                  key=lambda x: (any(dv in FIXED_OF for dv in x["dev"]), len(x["dev"])))
     singles = [x["dev"][0] for x in imps if len(x["dev"]) == 1]
     for x in imps:
         ok2, _ = match(obs, x["out"])
-        if ok2:
-            devs = x["dev"] if len(x["dev"]) == 1 else (x["out"].get("used") or singles)
-            ids = sorted({FINDING_OF[dv] for dv in devs})
-            if ids and all(i in open_ids for i in ids):
-                return "known", ids, det
-            return "bad", ids, det + " (equals the prediction of %s, which is not an open finding)" % (x["dev"],)
+        if not ok2:
+            continue
+        fixed = [dv for dv in x["dev"] if dv in FIXED_OF]
+        if fixed:       # equals what the code did before a fix: commit and nothing the code as it is would do
+            fired = [dv for dv in fixed if dv in (x["out"].get("used") or [])] or fixed
+            ids = sorted({FIXED_OF[dv][0] for dv in fired})
+            return "bad", ids, det + " (REGRESSION: equals the prediction of the deviation model %s of the repaired finding %s)" % (
+                "+".join(fired), ", ".join("%s (fixed by %s)" % FIXED_OF[dv] for dv in fired))
+        devs = x["dev"] if len(x["dev"]) == 1 else (x["out"].get("used") or singles)
+        ids = sorted({FINDING_OF[dv] for dv in devs if dv in FINDING_OF})
+        if ids and all(i in open_ids for i in ids) and all(dv in FINDING_OF for dv in devs):
+            return "known", ids, det
+        return "bad", ids, det + " (equals the prediction of %s, which is not an open finding)" % (x["dev"],)
     return "bad", [], det
 
 
@@ -700,12 +721,31 @@ def okey(out):
 # generation
 
 
+def _cfg_devsets(cfg):
+    """the deviation constants of a cfg file must be the sets this module attributes with"""
+    txt = open(os.path.join(os.path.dirname(os.path.abspath(__file__)), "..", "specs", "cfg", cfg)).read()
+    got = {}
+    for name in ("ImplDev", "FixedDev"):
+        mm = re.search(r"^\s*%s\s*=\s*\{([^}]*)\}" % name, txt, re.M)
+        if not mm:
+            raise vlib.Infra("%s: constant %s missing" % (cfg, name))
+        got[name] = set(re.findall(r'"([^"]+)"', mm.group(1)))
+    if got["ImplDev"] != set(IMPL_DEVS) or got["FixedDev"] != set(FIXED_OF):
+        raise vlib.Infra("%s: ImplDev / FixedDev %r differ from IMPL_DEVS / FIXED_OF of props/c06.py" % (cfg, got))
+
+
 def _tlc(cfg, stats, key, timeout=1500, **kw):
+    _cfg_devsets(cfg)
     r = vlib.run_tlc("LineProtocolMC", cfg, timeout=timeout, **kw)
     vlib.tlc_must_pass(r, cfg)
     stats[key] = {"cfg": cfg, "generated": r["generated"], "distinct": r["distinct"], "depth": r["depth"],
                   "wall_s": round(r["wall_s"], 1), "cases": len(r["traces"])}
     return r
+
+
+def _canon(tr):
+    """TLC prints the cases of a multi-worker BFS in no fixed order: sort them, so that a seed names one sample"""
+    return sorted(tr, key=lambda t: (len(t["line"]), t["line"], t.get("prec", "")))
 
 
 def _sample(tr, n, rnd):
@@ -723,21 +763,37 @@ def _sample(tr, n, rnd):
     return rnd.sample(acc, na) + rnd.sample(imp, ni) + rnd.sample(rej, n - na - ni)
 
 
+VALUE_REPS = {"quick": 8, "thorough": 24}
+
+
 def gen_cases(tier, seed):
     stats = {}
-    _tlc("LineProtocol.exh.%s.cfg" % tier, stats, "exh", timeout=3000)
     rnd = random.Random(seed)
-    plan = [("struct", "LineProtocol.bfs.struct.%s.cfg" % tier, 3000, 40000), ("values", "LineProtocol.bfs.values.cfg", 2000, 10**9),
-            ("ts", "LineProtocol.bfs.ts.cfg", 500, 10**9), ("tags", "LineProtocol.bfs.tags.cfg", 600, 10**9)]
+    # values / ts: every exported case also in the quick tier (a wrong spelling such as v=tRUE is one text of one token
+    # in ~50 of the 8720 value lines: a 2000-line sample met it too rarely to catch a lenient boolean parser reliably)
+    plan = [("struct", "LineProtocol.bfs.struct.%s.cfg" % tier, 3000, 40000), ("values", "LineProtocol.bfs.values.cfg", 10**9, 10**9),
+            ("ts", "LineProtocol.bfs.ts.cfg", 10**9, 10**9), ("tags", "LineProtocol.bfs.tags.cfg", 600, 10**9),
+            # escapes in one tag + one field up to 10 classes (m,k=\,v f=1i needs 10): every accepted line is replayed
+            ("esc", "LineProtocol.bfs.esc.cfg", 2400, 10**9)]
+    nsim = 600 if tier == "quick" else 8000
+    # the TLC runs are independent processes: Mode A next to the exports (three at a time); what is sampled, and in
+    # which order the seeded generator is used, does not depend on the order in which they finish
+    with cf.ThreadPoolExecutor(3) as ex:
+        fexh = ex.submit(_tlc, "LineProtocol.exh.%s.cfg" % tier, stats, "exh", timeout=3000)
+        futs = {key: ex.submit(_tlc, cfg, stats, key, workers=8) for key, cfg, _, _ in plan}
+        futs["sim"] = ex.submit(_tlc, "LineProtocol.sim.cfg", stats, "sim", simulate=nsim, depth=40, seed=seed)
+        fexh.result()                      # Mode A must pass (vlib.Infra otherwise)
+        res = {key: f.result() for key, f in futs.items()}
     cases = []
     for key, cfg, nquick, nthorough in plan:
-        r = _tlc(cfg, stats, key, workers=8)
-        tr = _sample(r["traces"], nquick if tier == "quick" else nthorough, rnd)
+        tr = _sample(_canon(res[key]["traces"]), nquick if tier == "quick" else nthorough, rnd)
+        if key == "values":
+            # text coverage of the value tokens: the lines whose verdict hinges on ONE token (measurement, key, token,
+            # at most one more class) are concretised VALUE_REPS times, each with its own measurement and texts
+            tr = tr + [t for t in tr if len(t["line"]) <= 6] * (VALUE_REPS[tier] - 1)
         stats[key]["replayed"] = len(tr)
         cases += [dict(t, src=key) for t in tr]
-    nsim = 600 if tier == "quick" else 8000
-    r = _tlc("LineProtocol.sim.cfg", stats, "sim", simulate=nsim, depth=40, seed=seed)
-    tr = _sample(r["traces"], 1500 if tier == "quick" else 20000, rnd)
+    tr = _sample(res["sim"]["traces"], 1500 if tier == "quick" else 20000, rnd)
     stats["sim"]["replayed"] = len(tr)
     cases += [dict(t, src="sim") for t in tr]
     return cases, stats
@@ -982,7 +1038,7 @@ def run(tier, seed):
         "batches": len(batches), "batch_shapes": sorted({b["shape"] for b in batches}),
         "batch_neighbours_dropped_with_4xx": sum(1 for b in batches if b["status"] >= 400 and any(m["valid"] and m["obs"]["stored"] is None for m in b["members"])),
         "known_finding_cases": known, "rejected_with_5xx": r5, "skipped_nonunique_measurement": summary["skipped"],
-        "by_source": {k: sum(1 for x in live if x["case"].get("src") == k) for k in ("struct", "values", "ts", "tags", "sim")},
+        "by_source": {k: sum(1 for x in live if x["case"].get("src") == k) for k in ("struct", "values", "ts", "tags", "esc", "sim")},
         "wall_tlc_s": round(t_tlc, 1), "wall_lines_s": round(summary["t_single"], 1), "wall_batches_s": round(summary["t_batch"], 1),
     }
     vlib.write_evidence(PROP, tier, seed, "model_checking", cov, time.time() - t0, nviol, [
@@ -1036,7 +1092,8 @@ def replay(path, seed):
 
 
 SEEDS = ["accept_no_field", "unescape_drops_backslash", "reject_recovers", "bool_T_false", "empty_tag_skipped",
-         "tagval_equals_literal", "fsuffix_unvalidated", "quote_scan", "int_via_float64", "batch_last_line_decides"]
+         "tagval_equals_literal", "quote_scan_key", "int_via_float64", "batch_last_line_decides",
+         "fsuffix_unvalidated", "quote_scan", "float_fastfloat", "ts_mult_wraps"]
 
 
 def selftest(seed):
